@@ -69,13 +69,17 @@ harness!(c07_pair_bimorphism, 2, {
 });
 
 // KeyedBimorphism<BTreeMap, CartesianProduct>: key shapes concrete, set contents symbolic
-type MK = MapUnion<BTreeMap<u8, S4>>;
-type MO = BTreeMap<u8, SetUnion<P8>>;
+// maps on the harness-side no-heap CapMap (BTreeMap iteration/comparison costs CBMC minutes, DESIGN §2);
+// the `KeyedBimorphism::call` body executed is the repository's.
+type MK = MapUnion<crate::cap::CapMap<u8, S4, 4>>;
+type MO = crate::cap::CapMap<u8, SetUnion<P8>, 4>;
 fn mk(ents: &[(u8, usize)]) -> MK {
-    let mut m = BTreeMap::new();
+    let mut m = crate::cap::CapMap::<u8, S4, 4>::default();
     let mut i = 0;
     while i < ents.len() {
-        m.insert(ents[i].0, set_of::<4>(ents[i].1));
+        m.keys[i] = Some(ents[i].0);
+        m.vals[i] = Some(set_of::<4>(ents[i].1));
+        m.len = i + 1;
         i += 1;
     }
     MapUnion::new(m)
@@ -88,9 +92,9 @@ fn keyed_left(a: &[(u8, usize)], da: &[(u8, usize)], b: &[(u8, usize)]) {
     assert!(lhs == rhs, "C07 keyed bimorphism: left argument is not a morphism");
     let k: u8 = any();
     let (p, q): (u8, u8) = (any(), any());
-    let in_a = a.as_reveal_ref().get(&k).is_some_and(|s| s.as_reveal_ref().has(&p)) || da.as_reveal_ref().get(&k).is_some_and(|s| s.as_reveal_ref().has(&p));
-    let in_b = b.as_reveal_ref().get(&k).is_some_and(|s| s.as_reveal_ref().has(&q));
-    let got = lhs.as_reveal_ref().get(&k).is_some_and(|s| s.as_reveal_ref().has(&(p, q)));
+    let in_a = a.as_reveal_ref().val(&k).is_some_and(|s| s.as_reveal_ref().has(&p)) || da.as_reveal_ref().val(&k).is_some_and(|s| s.as_reveal_ref().has(&p));
+    let in_b = b.as_reveal_ref().val(&k).is_some_and(|s| s.as_reveal_ref().has(&q));
+    let got = lhs.as_reveal_ref().val(&k).is_some_and(|s| s.as_reveal_ref().has(&(p, q)));
     assert!(got == (in_a && in_b), "C07 keyed bimorphism: output is not the key-wise product");
     cov!(got, "probe present");
 }
@@ -100,7 +104,7 @@ fn keyed_right(a: &[(u8, usize)], b: &[(u8, usize)], db: &[(u8, usize)]) {
     let lhs = f.call(a.clone(), Merge::merge_owned(b.clone(), db.clone()));
     let rhs = Merge::merge_owned(f.call(a.clone(), b.clone()), f.call(a.clone(), db.clone()));
     assert!(lhs == rhs, "C07 keyed bimorphism: right argument is not a morphism");
-    cov!(!lhs.as_reveal_ref().is_empty(), "non-empty output");
+    cov!(lhs.as_reveal_ref().len > 0, "non-empty output");
 }
 //@ heavy=1
 harness!(c07_keyed_left_a01_d1_b12, 8, { keyed_left(&[(0, 1), (1, 1)], &[(1, 1)], &[(1, 1), (2, 1)]); });
